@@ -1,10 +1,13 @@
 (* C05 - Input-free Async providers really run concurrently.
-   partial: Layer A (any emitted program of the right shape has the overlapping execution) is a theorem; that the
-   generator always emits that shape is established per observed program by the verified checker `c05b`, evaluated on
-   every generated injector of the streams, and by the barrier runs - not yet by a theorem about findOptimalPool. *)
+   Layer A: any emitted program of the right shape has the overlapping execution (C05_overlap, C05_overlap_checked).
+   Layer B: for EVERY accepted declaration the generator model emits that shape - roots of the graph are visited first
+   (Kahn.topo_roots_first), findOptimalPool's model puts synchronous roots into pool 0 and every Async root into pool 0
+   (if it holds no Async node yet) or into an empty pool, of which one always exists because the pool count is at least
+   the number of roots (Sched2.place_root, Match.antichain_ge_roots) - so C05_all_declarations is a theorem.  The
+   verified checker `c05b` is still evaluated on every generated injector: that is the tie to the code. *)
 From Coq Require Import List Arith Bool.
 Import ListNotations.
-Require Import Sem2 Safe Live LiveInv Check Overlap.
+Require Import Sem2 Safe Live LiveInv Check Overlap GenU GenSound C05B.
 
 (* For every ranked well-synchronised program and every set F of positions (thread, item), at most one per thread, such
    that no item of that thread up to the position awaits anything: there is an execution without failure or
@@ -20,6 +23,18 @@ Theorem C05_overlap_checked : forall p rk F, check_code p rk = 0 -> c05b p F = t
   exists ls s, forallb ffl ls = true /\ run p (init p) ls = Some s /\ forall tj, In tj F -> inside_at s tj.
 Proof. exact overlap_checked. Qed.
 Print Assumptions C05_overlap_checked.
+
+(* THE STATEMENT OF C05, for all accepted declarations: take any set of needed providers that are marked Async and take no
+   inputs at all (graph nodes with no parameters); the emitted program has an execution, without failure or cancellation,
+   that reaches a state in which ALL of them are inside their provider function simultaneously - regardless of how many
+   other providers, arguments, synchronous or asynchronous, the injector contains and in which order they are declared. *)
+Theorem C05_all_declarations : forall d g, unew_graph d = Gen.OK g ->
+  exists st, Threads.build (unp g) (upool g) (udeps g) (uisasync g) (uargs g) = Some st /\
+  forall roots, NoDup roots -> (forall n, In n roots -> n < nn g /\ unreq g n = 0 /\ uisarg g n = false /\ uisasync g n = true) ->
+  exists ls s, forallb ffl ls = true /\ Sem2.run (uprog g st) (Sem2.init (uprog g st)) ls = Some s /\
+    forall n, In n roots -> exists t j vs, item_at (uprog g st) t j = Some (uitem g n) /\ nth_error (s_thr s) t = Some (TRun j (PInside vs)).
+Proof. exact async_roots_overlap. Qed.
+Print Assumptions C05_all_declarations.
 
 (* non-vacuity: main thread = sync S then async A; two goroutines with async B, C; all three async ones overlap *)
 Definition ex_prog : prog :=
